@@ -250,8 +250,8 @@ fn single_site(c: &TilingCase, fails: &dyn Fn(&TilingCase) -> bool) -> TilingCas
 
 pub fn parts() -> Vec<PartDef> {
     vec![
-        part("shapes", 400_000, 12_000_000, shape_strat, shape_oracle),
-        part("cells", 400_000, 12_000_000, cell_strat, cell_oracle),
-        part_min("states", 40_000, 1_200_000, |_| crate::props::c01::state_family_strat(), state_oracle, single_site),
+        part("shapes", 3_000_000, 60_000_000, shape_strat, shape_oracle),
+        part("cells", 2_000_000, 40_000_000, cell_strat, cell_oracle),
+        part_min("states", 200_000, 4_000_000, |_| crate::props::c01::state_family_strat(), state_oracle, single_site),
     ]
 }
